@@ -26,6 +26,7 @@ GEOS = {
     "um": dict(p1=[2e-6, 1e-6], p2=[8e-6, 4e-6], mult=1e-6),
     "m": dict(p1=[-1.0, 0.5], p2=[3.0, 2.0], mult=1),
     "km": dict(p1=[0.0, 0.0], p2=[4e3, 9e3], mult=1e3),
+    "nmodd": dict(p1=[2.5e-10, -1.25e-9], p2=[6.25e-9, 4.75e-9], mult=1e-9),  # corners that are not whole nanometres
     "mixed": dict(p1=[0.0, 0.0], p2=[600e-9, 30e-9], mult=1e-9),  # 0.6 um x 30 nm: the larger of the two axis multipliers... see below
 }
 
@@ -179,13 +180,14 @@ def h_scalar(sx, cfg):
     _check_image(sx, "pixel", A, n, lambda idx: arr[idx + (0,)], drawn)
     _check_geometry(sx, rec, fn, mesh, dims, pmin, pmax, mult, n)
     _untouched(sx, f, arr, valid, mesh, n)
-    if ff is None and kind != "call":
-        # history: the validity mask is edited in place after the first plot; the next plot follows the current mask
+    if ff is None:
+        # history: the validity mask is edited in place after the first plot; the next plot (same option dictionaries) follows the current mask
         first = (0, 0)
         now = not sx.decide(sx.truth(valid[first]))
         f.valid[first] = now
         rec2 = RecorderAxes()
-        (f.mpl.scalar if kind == "scalar" else f.mpl.contour)(**dict(kw, ax=rec2))
+        kw["ax"] = rec2
+        (f.mpl.scalar if kind == "scalar" else f.mpl.contour if kind == "contour" else f.mpl)(**kw)
         A2 = rec2.get(fn)[0][1][2] if kind == "contour" else rec2.get(fn)[0][1][0]
         _check_image(sx, "pixel-after-in-place-mask-edit", A2, n, lambda idx: arr[idx + (0,)], lambda idx: now if idx == first else sx.truth(valid[idx]))
     if ff is not None:
@@ -336,18 +338,20 @@ def h_lightness(sx, cfg):
         vals = rng.normal(size=(*n, nv))
         pat = rng.random(n) > 0.3
         pat.flat[0], pat.flat[-1] = False, True
+        if nv > 1:
+            vals[tuple(k - 1 for k in n)] = 0.0  # a valid cell holding the zero vector is still drawn; invalid cells hold non-zero vectors
         f = df.Field(mesh, nvdim=nv, value=vals, valid=pat, vdim_mapping={"x": "x", "y": "y", "z": None} if nv == 3 else None)
         before, vbefore = f.array.copy(), f.valid.copy()
         fig, ax = plt.subplots()
         try:
-            f.mpl.lightness(ax=ax, colorwheel=False)
+            f.mpl.lightness(ax=ax, colorwheel=False, **({"multiplier": cfg["multiplier"]} if cfg.get("multiplier") else {}))
             ims = ax.get_images()
             sx.check("one-image", len(ims) == 1)
             if ims:
                 rgba = np.asarray(ims[0].get_array())
                 pmin = [min(a, b) for a, b in zip(g["p1"], g["p2"])]
                 pmax = [max(a, b) for a, b in zip(g["p1"], g["p2"])]
-                mult = _expected_multiplier(pmin, pmax)
+                mult = cfg.get("multiplier") or _expected_multiplier(pmin, pmax)
                 sx.check("image-shape", rgba.shape == (n[1], n[0], 4))
                 sx.check("extent", all(_close(float(a), b) for a, b in zip(ims[0].get_extent(), [pmin[0] / mult, pmax[0] / mult, pmin[1] / mult, pmax[1] / mult])))
                 alpha = rgba[..., 3].T
@@ -392,7 +396,11 @@ def tasks(tier):
         if q and j % 3 == 2 and cfg.get("pairing") in ([0, 1],):
             continue
         t.append(dict(harness="h_vector", cfg=cfg, limits=big))
+    # an explicit multiplier far from the natural one (coordinates of order 1e-9 in the plot's units), corners off the nanometre grid
+    for plot, mult in (("scalar", 1), ("call", 1e-3), ("contour", 1), ("scalar", None)):
+        t.append(dict(harness="h_scalar", cfg=dict(n=[2, 3], geo="nmodd", plot=plot, filter="valid", dims="default", multiplier=mult), limits=big))
+    t.append(dict(harness="h_vector", cfg=dict(n=[3, 2], nvdim=3, pairing=[0, 1], geo="nmodd", dims="default", multiplier=1), limits=big))
     t.append(dict(harness="h_refuse", cfg={}))
-    for n, nv, geo in (((2, 3), 1, "nm"), ((3, 2), 3, "m")):
-        t.append(dict(harness="h_lightness", cfg=dict(n=list(n), nvdim=nv, geo=geo)))
+    for n, nv, geo in (((2, 3), 1, "nm"), ((3, 2), 3, "m"), ((3, 3), 2, "um"), ((2, 3), 1, "nmodd")):
+        t.append(dict(harness="h_lightness", cfg=dict(n=list(n), nvdim=nv, geo=geo, multiplier=1 if geo == "nmodd" else None)))
     return t
